@@ -111,6 +111,24 @@ Definition error_jumps (tasks : list beh) (l : list ev) : Prop :=
   forall i a b r, In (ETask i a) l -> nth_error tasks i = Some b -> completions b = [(true, r)] ->
     exists pre, l = pre ++ [ETask i a; EFinal true r].
 
+(* ---- the other runners (Part 2b Simple, Part 2c ExecAndWait) ---- *)
+
+(* the log is an initial segment of the history function *)
+Definition ext_of (tasks : list beh) (l : list ev) : Prop := exists ext, l ++ ext = spec tasks.
+
+(* all clauses of the property that speak about an invocation log *)
+Definition chain_laws (tasks : list beh) (l : list ev) : Prop :=
+  chain_order l /\ chain_args tasks l /\ chain_finals tasks l /\ (finals_in l <= 1)%nat.
+
+Definition no_pan (b : beh) : bool := match b with Beh _ _ p => negb p end.
+
+Definition invoked_nopanic (tasks : list beh) (l : list ev) : Prop :=
+  forall i a b, In (ETask i a) l -> nth_error tasks i = Some b -> no_pan b = true.
+
+Definition xreachable (tasks : list beh) (sr : xst * list xres) : Prop := exists ls, sr = x_run tasks ls.
+Definition ereachable (tasks : list beh) (s : est) : Prop := exists ls, s = erun tasks ls.
+Definition equiescent (tasks : list beh) (s : est) : Prop := forall l, estep tasks s l = None.
+
 (* ---- boolean monitors, evaluated on implementation traces by Corr.v ---- *)
 
 Fixpoint prefixb {A} (eqb : A -> A -> bool) (p l : list A) : bool :=
@@ -133,6 +151,7 @@ Definition sev_eqb (a b : sev) : bool :=
   | SPostFail p n, SPostFail q m => Z.eqb p q && Z.eqb n m
   | STask c i x, STask d j y => Z.eqb c d && Z.eqb i j && zlist_eqb x y
   | SFinal c e x, SFinal d f y => Z.eqb c d && Bool.eqb e f && zlist_eqb x y
+  | SRet c, SRet d | SEsc c, SEsc d | SHang c, SHang d | SMgr c, SMgr d | SBad c, SBad d => Z.eqb c d
   | _, _ => false
   end.
 
